@@ -361,7 +361,6 @@ Definition intro_spec (n : node) : bytes :=
 Definition class26_tok (d : dev26) : bytes :=
   match d with
   | MissingInterface => B "missing_interface"
-  | InvalidArgsName => B "invalid_args_name"
   | NoargExtra => B "noarg_extra_args"
   | StructFlattened => B "sole_struct_flattened"
   | SingleStructReturn => B "single_struct_return"
@@ -460,7 +459,6 @@ Section Run.
       else
         match class26 root c with
         | Some SingleStructReturn => (dash, dash)
-        | Some InvalidArgsName => (r (option_map relax_err sp), dash)
         | Some x => (r sp, class26_tok x)
         | None => (r sp, dash)
         end
@@ -482,8 +480,7 @@ Section Run.
     | OIntro path =>
         match get_child root (segs_of path) with
         | Some n =>
-            Some (intro_model n ++ bar ++ bar, intro_spec n ++ bar ++ bar,
-                  (if node_dd n then B "doc_double_dash" else dash), root)
+            Some (intro_model n ++ bar ++ bar, intro_spec n ++ bar ++ bar, dash, root)
         | None =>
             Some (B "EUnknownObject=*||||", B "EUnknownObject=*||||", dash, root)
         end
